@@ -187,8 +187,7 @@ def check_multi(chk, F, P):
             chk.fail(rid, "%s|nosigs|unanalysable" % v, "unanalysable: %s" % e, where, kind="unanalysable")
 
 
-def check_has_sig(chk, F, P):
-    rid = "R01.4"
+def check_has_sig(chk, F, P, rid="R01.4"):
     chk.rule(rid, "has_sig of every template = `the template contains a signature` (leaves) / OR of the "
                   "parts' has_sig (combinators)")
     where = F.fns[P["sat_dissat"]]["span"]
